@@ -87,6 +87,8 @@ Proof.
   unfold member_of. destruct (strip_prefix root f) as [[|c r]|]; try reflexivity.
   rewrite existsb_app. destruct (existsb (fun pt => matches pt (c :: r)) a); reflexivity.
 Qed.
+Lemma effective_app xs ts : effective xs ts = xs ++ ts.
+Proof. reflexivity. Qed.
 Lemma member_comm root a b f : member_of root (a ++ b) f = member_of root (b ++ a) f.
 Proof.
   unfold member_of. destruct (strip_prefix root f) as [[|c r]|]; try reflexivity.
@@ -126,7 +128,7 @@ Proof.
   inversion H1; subst am sm. inversion H2; subst am' sm'.
   pose proof (assoc_independent _ _ _ _ _ _ _ E1 E2) as ->. split; [reflexivity|].
   intros k. rewrite !row_is_count. apply count_split.
-  - intros f. unfold effective. rewrite app_assoc. rewrite (member_app root (xs ++ ts) more f).
+  - intros f. rewrite (effective_app xs ts), (effective_app xs (ts ++ more)). rewrite app_assoc. rewrite (member_app root (xs ++ ts) more f).
     destruct (member_of root (xs ++ ts) f), (member_of root ((xs ++ ts) ++ more) f); reflexivity.
   - intros f. destruct (member_of root (effective xs (ts ++ more)) f), (member_of root (effective xs ts) f); reflexivity.
 Qed.
@@ -162,10 +164,10 @@ Theorem x_equals_toml fs fuel root xs ts w cfg :
   analyse fs fuel root xs ts w cfg = analyse fs fuel root (xs ++ ts) [] w cfg /\
   analyse fs fuel root xs ts w cfg = analyse fs fuel root ts xs w cfg.
 Proof.
-  split; [|split]; apply analyse_ext; intros f; unfold effective.
+  split; [|split]; apply analyse_ext; intros f.
   - reflexivity.
-  - rewrite app_nil_r. reflexivity.
-  - apply member_comm.
+  - rewrite (effective_app xs ts), (effective_app (xs ++ ts) []), app_nil_r. reflexivity.
+  - rewrite (effective_app xs ts), (effective_app ts xs). apply member_comm.
 Qed.
 
 (* ---------- the keys of the setmap are the specification's platform sets ---------- *)
